@@ -7,7 +7,7 @@
 EXTENDS Sequences, Json, IOUtils, SequencesExt, FiniteSets, TLC
 
 InitCalls == {"holidays_fr", "holidays_us", "country_from_coords", "tz_from_coords", "ctx_from_coords", "easter"}
-Calls == InitCalls \cup {"plain_shared", "plain_clone", "normalize", "clone_ctx_switch", "clone_locale_switch", "interleave_exprs", "shared_walk", "coords_two_zones"}
+Calls == InitCalls \cup {"plain_shared", "plain_clone", "normalize", "clone_ctx_switch", "clone_locale_switch", "interleave_exprs", "shared_walk", "coords_two_zones", "calendar_rebuild"}
 Prog2 == {<<a, b>> : a \in InitCalls, b \in Calls}
 Two   == {<<p, q>> : p \in Prog2, q \in Prog2}
 Three == {<<<<a>>, <<b>>, <<c>>>> : a \in InitCalls, b \in InitCalls, c \in InitCalls}
